@@ -575,10 +575,20 @@ pub struct HumanSpan {
 
 impl HumanSpan {
     fn from_range(before: Span, after: Span) -> Self {
+        let column_start = before.get_column();
+        // A construct may continue on following lines (a multi-line {{{ command }}}, a <name> with a line break in it)
+        // but diagnostics only ever show the line it starts on.  Clip the span to that line instead of borrowing the
+        // end column from some other line, which may well be smaller than the start column and crashes the renderer.
+        let column_end = if after.location_line() == before.location_line() {
+            after.get_column()
+        } else {
+            let fragment = before.fragment();
+            column_start + fragment.find('\n').unwrap_or(fragment.len())
+        };
         Self {
             line: before.location_line() as usize,
-            column_start: before.get_column(),
-            column_end: after.get_column(),
+            column_start,
+            column_end,
         }
     }
 
